@@ -60,6 +60,36 @@ fn check_slice(sub: &str, len: usize, start: Option<i32>, stop: Option<i32>, ste
         }
     }
     if via_api {
+        // the same array handed over in other ways: as a serde_json::Value (owned, borrowed,
+        // converted explicitly), as a Rust Vec; and the result read back through serde
+        {
+            use std::convert::TryFrom;
+            use serde::Deserialize;
+            let value = serde_json::json!({"xs": (0..len).collect::<Vec<usize>>()});
+            let e = jmespath::compile(&text).map_err(|e| Failure::new(sub, "harness-compile", e.to_string(), case.clone()))?;
+            let routes: Vec<(&str, Result<jmespath::Rcvar, jmespath::JmespathError>)> = vec![
+                ("search(&Value)", e.search(&value)),
+                ("search(Value)", e.search(value.clone())),
+                ("search(Variable::try_from(Value))", jmespath::Variable::try_from(value.clone()).and_then(|v| e.search(v))),
+                ("search(Variable::try_from(&Value))", jmespath::Variable::try_from(&value).and_then(|v| e.search(v))),
+                ("search(BTreeMap<&str, Vec<usize>>)", e.search(std::collections::BTreeMap::from([("xs", (0..len).collect::<Vec<usize>>())]))),
+            ];
+            for (route, r) in routes {
+                match r {
+                    Ok(v) if var_to_j(&v).deep_eq(&want) => {
+                        // reading the answer out through serde
+                        let back = Vec::<i64>::deserialize((*v).clone());
+                        let wantv: Vec<i64> = slice_indices(len, start, stop, stepv).into_iter().map(|i| i as i64).collect();
+                        if back.as_ref().ok() != Some(&wantv) {
+                            return Err(Failure::new(sub, "wrong-slice", format!("{} via {}: Vec::<i64>::deserialize(result) gave {:?} expected {:?}", text, route, back.map_err(|e| e.to_string()), wantv), case));
+                        }
+                    }
+                    other => {
+                        return Err(Failure::new(sub, "wrong-slice", format!("{} via {} gave {:?} expected {}", text, route, other.map(|v| v.to_string()).map_err(|e| e.to_string()), want.to_json()), case));
+                    }
+                }
+            }
+        }
         let v = jmespath::Variable::from_json(&arr(len).to_json()).unwrap();
         let r = catch(std::panic::AssertUnwindSafe(|| v.slice(start, stop, stepv)));
         match r {
